@@ -527,7 +527,12 @@ func GenModel(t *rapid.T) *Model {
 	rets = append(rets, texpr{"list<A>", &Ty{K: tm.LIST, Elem: st("main.A")}, false}, texpr{"M", &Ty{K: tm.MAP, Key: &Ty{K: tm.STRING}, Elem: &Ty{K: tm.I64}}, false})
 	nsvc := rapid.IntRange(1, 3).Draw(t, "nSvc")
 	for i := 0; i < nsvc; i++ {
-		s := Svc{File: "main", Name: fmt.Sprintf("Svc%d", i), Fns: genFns(mc, fmt.Sprintf("s%dm", i), rapid.IntRange(1, 3).Draw(t, "nFns"), mainStructs, rets, mainErrs)}
+		// (a service other than the first may have an empty body: it only inherits)
+		nf := rapid.IntRange(1, 3).Draw(t, "nFns")
+		if i > 0 && rapid.IntRange(0, 2).Draw(t, "emptyBody") == 0 {
+			nf = 0
+		}
+		s := Svc{File: "main", Name: fmt.Sprintf("Svc%d", i), Fns: genFns(mc, fmt.Sprintf("s%dm", i), nf, mainStructs, rets, mainErrs)}
 		switch rapid.IntRange(0, 3).Draw(t, "extends") {
 		case 1:
 			s.Extends = "inc.Base"
